@@ -327,7 +327,7 @@ def r18k(ctx):
             return False
         for t_ in walk_no_nested(h.node):
             if isinstance(t_, ast.Try) and any(hd.type is not None and "RecursionError" in ast.unparse(hd.type) for hd in t_.handlers) \
-                    and any(isinstance(x, ast.Call) and call_name(x) in ("repr", "str") for s_ in t_.body for x in ast.walk(s_)):
+                    and any(isinstance(x, ast.Call) and (call_name(x) or "").rsplit(".", 1)[-1] in ("repr", "str") for s_ in t_.body for x in ast.walk(s_)):
                 return True
         return False
     n = 0
@@ -355,6 +355,35 @@ def r18k(ctx):
                       f"`{norm(x, 40)}` calls the __repr__/__str__ of an object of the input graph while a cycle through it is being "
                       f"reported: two objects that refer to each other and print their fields make this raise RecursionError, with "
                       f"ignore_cycles on as well (the debug message is formatted before the logger drops it)")
+    # ... and does not unfold it either: repr() cuts cycles but prints a shared sub-object once per reference, so a cyclic
+    # structure that also holds a DAG of n doubling levels costs 2**n time and memory to *describe*; the text must come from
+    # a size-bounded formatter (reprlib) or from type/id
+    unbounded = []
+    for x in walk_no_nested(bt.node):
+        c_ = x.value if isinstance(x, ast.FormattedValue) and isinstance(x.value, ast.Call) else None
+        if c_ is None or not any(isinstance(a_, ast.Name) and a_.id in graph for a_ in c_.args):
+            continue
+        h_ = None
+        if isinstance(c_.func, ast.Name):
+            r_ = m.resolve_expr(bt.module, c_.func)
+            h_ = m.functions.get(r_[0][1]) if r_ and r_[0] and r_[0][0] == "func" else None
+        elif self_attr(c_.func):
+            h_ = m.method(bq, self_attr(c_.func))
+        if h_ is None:
+            continue
+        raw = [y for y in walk_no_nested(h_.node) if isinstance(y, ast.Call) and isinstance(y.func, ast.Name) and y.func.id in ("repr", "str", "ascii", "format")
+               and y.args and isinstance(y.args[0], ast.Name) and y.args[0].id in func_params(h_.node)]
+        raw += [y for y in walk_no_nested(h_.node) if isinstance(y, ast.FormattedValue) and isinstance(y.value, ast.Name) and y.value.id in func_params(h_.node)]
+        if raw:
+            unbounded.append((x, h_, raw[0]))
+    for x, h_, y in unbounded[:1]:
+        ctx.violation("R18k", f, "Builder.build_tree", x, "cycle message bounded",
+                      f"`{norm(x, 40)}` describes an object of the input graph with `{norm(y, 30)}` (in {h_.short}): repr() stops at cycles but "
+                      f"prints a shared sub-object once per reference, so for a cyclic structure that also holds `x = [x, x]` repeated n "
+                      f"times the message costs 2**n - the cycle error (or the placeholder) never arrives; use reprlib.repr or type/id")
+    if not unbounded:
+        ctx.proved("R18k", f, "Builder.build_tree", bt.node, "cycle message bounded",
+                   "objects of the input graph are described through a size-bounded formatter or by type/id")
     if not bad:
         ctx.proved("R18k", f, "Builder.build_tree", bt.node, "cycle messages do not recurse",
                    f"{n} formatted objects of the input graph, all through a RecursionError guard or by type/id")
